@@ -56,10 +56,19 @@ def gen(tier, rng):
     for early in (294, 296, 299, 290, 250):
         for sd in range(ns):
             yield "mqs %d r0:timed30|r1:pop|p0:sleep%d,push7" % (sd * 7 + early, early), {"scheduled": "window-%d" % early}
+    for x in gen_server(tier, rng):
+        yield x
     for i in range(300 if tier == "quick" else 6000):
         sc = mqbase.rand_mqs(rng, allow_unblock=(i % 3 == 0))
         for sd in range(3):
             yield "mqs %d %s" % (rng.below(1 << 30), sc), {"scheduled": "random"}
+
+
+def gen_server(tier, rng):
+    """the receive calls of the server API, mixed, against bursts on several connections"""
+    mixes = ["it1", "it1,recv1", "it2,try3", "recv2,timed2", "it1,it1,recv1", "try5", "timed3,it2", "it3"]
+    for i in range(16 if tier == "quick" else 200):
+        yield "rv %s %d %d %s" % (rng.choice(["u", "u", "t"]), rng.choice([1, 2, 4]), rng.choice([1, 3, 6]), rng.choice(mixes)), {"server_api": "mix"}
 
 
 def project(o):
